@@ -288,6 +288,27 @@ def run(chk):
         ff = p.func(qn)
         g = [n for n in ff.node.body if isinstance(n, ast.If) and norm_text(n.test) == "point_encoding == 'raw'" and len(n.body) == 1 and isinstance(n.body[0], ast.Raise)]
         chk.ob("R09.5", "%s refuses point_encoding='raw'" % qn.split(":")[1], len(g) == 1, loc=qn, key="C09|R09.5|%s" % qn, detail="%s no longer refuses the raw encoding (from_der rejects a raw-length body)" % qn)
+    # the reader refuses a BIT STRING body only when it has the raw length (the other side of the same rule)
+    dq = "keys:VerifyingKey.from_der"
+    itr = W.interp()
+    itr.entry_merge_limit = None
+    _rets, raised = itr.analyse(dq, [VK, VBytes(STR)])
+    fder = p.func(dq)
+    bs_line = min([n.lineno for n in ast.walk(fder.node) if isinstance(n, ast.Call) and norm_text(n.func).endswith("remove_bitstring")] or [10 ** 9])
+    late = [r for r in raised if r.kind == "explicit" and len(r.stack) == 1 and r.site[1] > bs_line and "empty" not in r.site[2]]
+    okraw = True
+    nlate = 0
+    from sa.absint import Ctx as _Ctx
+    for r in late:
+        ps, cv_ = r.state.env.get("point_str"), r.state.env.get("curve")
+        if not isinstance(ps, VBytes) or cv_ is None:
+            okraw = False
+            continue
+        Vc = itr.getattr(_Ctx(itr, None, "keys", None, 0), r.state, cv_, "verifying_key_length", None)[0][0]
+        nlate += 1
+        okraw &= isinstance(Vc, VInt) and r.state.proves_eq(ps.length - Vc.lin)
+    chk.ob("R09.5", "VerifyingKey.from_der refuses a point body only when it has exactly the raw length [%d raise state(s)]" % nlate, okraw and nlate >= 1, loc=dq, key="C09|R09.5|reader-raw-only",
+           detail="from_der rejects point encodings other than the raw-length one (a valid compressed / uncompressed / hybrid key of some curve would not load)")
     ts = p.func("keys:VerifyingKey.to_string")
     names_ = set()
     for n in ast.walk(ts.node):
